@@ -35,6 +35,11 @@ private def cusumStep (c : Cusum.Cfg Float) (s : Cusum.State Float) :
             ++ " " ++ showOptFloat s'.target ++ " " ++ showOptFloat s'.sd
             ++ " " ++ showFloat s'.sh ++ " " ++ showFloat s'.sl, s')
     | Option.none => Option.none
+  | ["reset"] =>
+    let s' := Cusum.reset s
+    some ("ok " ++ s'.drift.toStr ++ " " ++ toString s'.total ++ " " ++ toString s'.since
+          ++ " " ++ showOptFloat s'.target ++ " " ++ showOptFloat s'.sd
+          ++ " " ++ showFloat s'.sh ++ " " ++ showFloat s'.sl, s')
   | _ => Option.none
 
 private def phDir? : String → Option PH.Dir
@@ -50,6 +55,9 @@ private def phStep (c : PH.Cfg Float) (s : PH.State Float) : List String → Opt
             ++ showFloat r.theta ++ " " ++ showBool r.check ++ " " ++ showFloat r.mx ++ " "
             ++ showFloat r.mn ++ " " ++ showFloat r.mean, s')
     | Option.none => Option.none
+  | ["reset"] =>
+    let s' := PH.reset s
+    some (s'.drift.toStr ++ " " ++ toString s'.total ++ " " ++ toString s'.since, s')
   | _ => Option.none
 
 def mkSequential : List String → Option Machine
